@@ -2,5 +2,5 @@ SPECIFICATION Spec
 CONSTANTS
   Level = 2
   DynDepth = 1
-INVARIANTS TypeOK ThRoundTrip ThWorkBounded ThOverlongRefused ExportM
+INVARIANTS TypeOK ThRoundTrip ThWorkBounded ThOverlongRefused ThScaleLaw ExportM
 CHECK_DEADLOCK FALSE
